@@ -13,6 +13,8 @@ package engine
 //@   assigns matchCount
 //@   ensures ok ==> matchCount == old(matchCount) + 1
 //@   ensures !ok ==> matchCount == old(matchCount)
+//@   ensures ok ==> wfFileMatch(dmap(d)[boxed(global("github.com/uber-go/gopatch/internal/engine.fileMatchKey"))])
+//@   ensures [C09] ok ==> matchedFile(dmap(d)) == f
 //@   ensures d != nil
 
 //@ func (c *Change) Replace(d, cl) (f, err)
@@ -22,6 +24,9 @@ package engine
 //@   assigns group(ast), replFail, sitesReplaced
 //@   ensures err == nil ==> f != nil && replFail == old(replFail)
 //@   ensures err != nil ==> replFail == old(replFail) + 1
+//@   ensures [C09] the-matched-file-object-is-returned: err == nil ==> f == matchedFile(dmap(d))
+//@   ensures [C09] never-another-file: f == nil || f == matchedFile(dmap(d))
+//@   ensures-assumed typing: dmap(d)[boxed(global("github.com/uber-go/gopatch/internal/engine.fileMatchKey"))] != nil ==> astOK(matchedFile(dmap(d)))
 
 //@ func NewChangelog() (cl)
 //@   trusted allocates two go-intervals sets (dependency state, not modelled)
@@ -288,6 +293,7 @@ package engine
 // match was entered with, records every instance with its slot, and never prunes the walk.
 //@ func (m FileMatcher) Match$1(cursor) (res)
 //@   requires cursor != nil && d != nil && m.NodeMatcher != nil
+//@   invariant forall i int {matches[i]} :: 0 <= i && i < len(matches) ==> matches[i] != nil && allocated(matches[i]) && matches[i].data != nil
 //@   assigns matches, elems(matches)
 //@   ensures [C01] never-prunes: curNode(cursor) != nil ==> res
 //@   ensures [C01] records-exactly-the-instances: curNode(cursor) != nil ==> len(matches) == old(len(matches)) + ite(MatchOK(m.NodeMatcher, rvOf(curNode(cursor)), dmap(d), nodeRegionOf(curNode(cursor))), 1, 0)
@@ -302,6 +308,8 @@ package engine
 //@   requires typing: forall i int {file.Imports[i]} :: 0 <= i && i < len(file.Imports) ==> file.Imports[i] != nil && file.Imports[i].Path != nil && unquoteOK(file.Imports[i].Path.Value)
 //@   ensures [C10] package-guard: m.Package != "" && m.Package != file.Name.Name ==> !ok
 //@   ensures [C10] imports-guard: !imsOK(m.Imports, file, dmap(d)) ==> !ok
+//@   ensures [C03] recorded-match-data-is-wellformed: ok ==> wfFileMatch(dmap(d1)[boxed(global("github.com/uber-go/gopatch/internal/engine.fileMatchKey"))])
+//@   ensures [C03,C09] the-matched-file-is-recorded: ok ==> matchedFile(dmap(d1)) == file
 //@   ensures d1 != nil
 //@   assigns nothing
 
@@ -405,7 +413,8 @@ package engine
 //@   at call engine.Replacer.Replace set sitesReplaced = sitesReplaced + 1
 //@   assigns group(ast), sitesReplaced
 //@   ensures [C03] every-recorded-site-is-processed: err == nil ==> sitesReplaced == old(sitesReplaced) + len(fd.Matches)
-//@   ensures [C06,C09] the-matched-file-object-is-returned: err == nil ==> file == fd.File
+//@   ensures [C06,C09] the-matched-file-object-is-returned: err == nil ==> file == matchedFile(dmap(d))
+//@   ensures [C09] never-another-file: file == nil || file == matchedFile(dmap(d))
 //@   ensures err == nil ==> file != nil
 //@   loop 0
 //@     invariant [C03] sitesReplaced == old(sitesReplaced) + #k
